@@ -1,6 +1,206 @@
-import RucteModel
+import RucteModel.Statics
+import RucteProofs.BTree
 
-/-! # C16 — placeholder: theorems are added as they are proved. -/
+/-!
+# C16 — static files get valid, predictable Rust identifiers
+
+`mangle` = the identifier rule of `add_static` (after the repair it is the shared `rust_ident`).
+-/
 namespace Ructe.C16
-theorem placeholder : True := trivial
+open Nom
+
+def isIdentStart (b : UInt8) : Bool := isAlpha b || b = 95
+def isIdentChar (b : UInt8) : Bool := isAlpha b || isDigit b || b = 95
+
+/-- `[A-Za-z_][A-Za-z0-9_]*`, and not the lone `_` -/
+def isIdent : Bytes → Bool
+  | [] => false
+  | b :: r => isIdentStart b && r.all isIdentChar && !(b = 95 && r.isEmpty)
+
+/-- the rule as the property states it, on ASCII names -/
+def mangleAscii (s : Bytes) : Bytes :=
+  let m := s.map (fun b => if isAlnumAscii b then b else 95)
+  match m with
+  | [] => [110]
+  | b :: _ => if isDigit b then 110 :: m else m
+
+/-- strict and reserved keywords of the 2021 edition (none contains `_` except the lone `_`) -/
+def keywords : List String := ["as", "break", "const", "continue", "crate", "else", "enum", "extern", "false", "fn", "for",
+  "if", "impl", "in", "let", "loop", "match", "mod", "move", "mut", "pub", "ref", "return", "self", "Self", "static",
+  "struct", "super", "trait", "true", "type", "unsafe", "use", "where", "while", "async", "await", "dyn", "abstract",
+  "become", "box", "do", "final", "macro", "override", "priv", "typeof", "unsized", "virtual", "yield", "try", "_"]
+
+theorem scalars_cons_ascii (b : UInt8) (r : Bytes) (h : b < 128) : scalars (b :: r) = (b.toNat, [b]) :: scalars r := by
+  rw [scalars.eq_def]; simp only [h, if_true]
+
+theorem scalars_ascii (s : Bytes) (h : isAsciiB s = true) : scalars s = s.map (fun b => (b.toNat, [b])) := by
+  induction s with
+  | nil => rfl
+  | cons b r ih =>
+    simp only [isAsciiB, List.all_cons, Bool.and_eq_true, decide_eq_true_eq] at h
+    rw [scalars_cons_ascii b r h.1, List.map_cons]
+    rw [ih (by simpa [isAsciiB] using h.2)]
+
+/-- the per-scalar replacement, on an ASCII string, is a per-byte map -/
+theorem mangle_body_ascii (ua : Nat → Bool) (s : Bytes) (h : isAsciiB s = true) :
+    ((scalars s).flatMap fun (c, raw) =>
+      if c < 0x80 then (if isAlnumAscii c.toUInt8 then raw else [95]) else (if ua c then raw else [95]))
+    = s.map (fun b => if isAlnumAscii b then b else 95) := by
+  rw [scalars_ascii s h]
+  induction s with
+  | nil => rfl
+  | cons b r ih =>
+    simp only [isAsciiB, List.all_cons, Bool.and_eq_true, decide_eq_true_eq] at h
+    have hb : b.toNat < 128 := by simpa [UInt8.lt_iff_toNat_lt] using h.1
+    simp only [List.map_cons, List.flatMap_cons, hb, if_true, UInt8.ofNat_toNat, Nat.toUInt8_eq]
+    rw [ih (by simpa [isAsciiB] using h.2)]
+    split <;> rfl
+
+theorem mangle_ascii (ua : Nat → Bool) (s : Bytes) (h : isAsciiB s = true) : mangle ua s = mangleAscii s := by
+  unfold mangle mangleAscii
+  simp only [mangle_body_ascii ua s h]
+  rfl
+
+/-- the per-byte replacement of the ASCII rule -/
+def repl (b : UInt8) : UInt8 := if isAlnumAscii b then b else 95
+
+theorem mangleAscii_cases (s : Bytes) : mangleAscii s = s.map repl ∨ mangleAscii s = 110 :: s.map repl := by
+  cases s with
+  | nil => right; rfl
+  | cons b r =>
+    have e : mangleAscii (b :: r) = if isDigit (repl b) then 110 :: (b :: r).map repl else (b :: r).map repl := rfl
+    rw [e]
+    split
+    · right; rfl
+    · left; rfl
+
+theorem isIdentChar_repl (b : UInt8) : isIdentChar (repl b) = true := by
+  unfold repl isIdentChar isAlnumAscii isAlpha isDigit
+  split
+  · next h =>
+    simp only [Bool.or_eq_true, Bool.and_eq_true, decide_eq_true_eq, UInt8.le_iff_toNat_le] at h ⊢
+    simp only [UInt8.reduceToNat] at h ⊢
+    omega
+  · decide
+
+theorem isIdentStart_repl (b : UInt8) (h : isDigit (repl b) = false) : isIdentStart (repl b) = true := by
+  have := isIdentChar_repl b
+  unfold isIdentChar at this
+  unfold isIdentStart
+  simpa [h] using this
+
+theorem all_isIdentChar_repl (r : Bytes) : (r.map repl).all isIdentChar = true := by
+  simp [List.all_map, isIdentChar_repl]
+
+theorem mangleAscii_is_ident (s : Bytes) (hs : s ≠ []) (hne : mangleAscii s ≠ [95]) : isIdent (mangleAscii s) = true := by
+  cases s with
+  | nil => exact absurd rfl hs
+  | cons b r =>
+    have e : mangleAscii (b :: r) = if isDigit (repl b) then 110 :: (b :: r).map repl else (b :: r).map repl := rfl
+    rw [e] at hne ⊢
+    cases hd : isDigit (repl b) with
+    | true =>
+      simp only [if_true]
+      have h0 : isIdentStart 110 = true := by decide
+      have h2 := all_isIdentChar_repl (b :: r)
+      simp only [isIdent, h0, h2]
+      rfl
+    | false =>
+      simp only [hd, Bool.false_eq_true, if_false, List.map_cons] at hne ⊢
+      have h1 := isIdentStart_repl b hd
+      have h2 := all_isIdentChar_repl r
+      simp only [isIdent, h1, h2, Bool.true_and, Bool.not_eq_true', Bool.and_eq_false_iff, decide_eq_false_iff_not]
+      by_cases hb : repl b = 95
+      · right
+        cases hr : r.map repl with
+        | nil => rw [hb, hr] at hne; exact absurd rfl hne
+        | cons _ _ => rfl
+      · left; exact hb
+
+/-- … for `to/`-prefixed URL names as well (any non-empty ASCII string of length ≥ 2 or not `_`) -/
+theorem mangle_is_ident_url (ua : Nat → Bool) (s : Bytes) (hs : s ≠ []) (h : isAsciiB s = true)
+    (hne : mangleAscii s ≠ [95]) : isIdent (mangle ua s) = true := by
+  rw [mangle_ascii ua s h]
+  exact mangleAscii_is_ident s hs hne
+
+theorem length_le_mangleAscii (s : Bytes) : s.length ≤ (mangleAscii s).length := by
+  rcases mangleAscii_cases s with e | e <;> rw [e] <;> simp
+
+theorem mem_mangleAscii_of_mem_map {s : Bytes} {c : UInt8} (h : c ∈ s.map repl) : c ∈ mangleAscii s := by
+  rcases mangleAscii_cases s with e | e <;> rw [e] <;> simp [h]
+
+theorem two_le_length (name ext : Bytes) (hn : name ≠ []) : 2 ≤ (name ++ [95] ++ ext).length := by
+  cases name with
+  | nil => exact absurd rfl hn
+  | cons _ _ => simp only [List.length_append, List.length_cons, List.length_nil]; omega
+
+theorem underscore_mem (name ext : Bytes) : (95 : UInt8) ∈ mangleAscii (name ++ [95] ++ ext) := by
+  apply mem_mangleAscii_of_mem_map
+  have : repl 95 = 95 := by decide
+  rw [List.mem_map]
+  exact ⟨95, by simp, this⟩
+
+/-- every ASCII file name with an extension (`name` non-empty) yields a legal identifier -/
+theorem mangle_is_ident (ua : Nat → Bool) (name ext : Bytes) (hn : name ≠ [])
+    (h : isAsciiB (name ++ [95] ++ ext) = true) : isIdent (mangle ua (name ++ [95] ++ ext)) = true := by
+  have h1 := two_le_length name ext hn
+  refine mangle_is_ident_url ua _ ?_ h ?_
+  · intro e
+    rw [e] at h1
+    simp at h1
+  · intro e
+    have h2 := length_le_mangleAscii (name ++ [95] ++ ext)
+    rw [e] at h2
+    simp only [List.length_cons, List.length_nil] at h2
+    omega
+
+theorem keywords_shape : ∀ k ∈ keywords, (95 : UInt8) ∉ str k ∨ (str k).length < 2 := by
+  decide +kernel
+
+/-- it is never a keyword: it contains `_` and has at least two bytes -/
+theorem mangle_not_keyword (ua : Nat → Bool) (name ext : Bytes) (hn : name ≠ [])
+    (h : isAsciiB (name ++ [95] ++ ext) = true) :
+    ∀ k ∈ keywords, str k ≠ mangle ua (name ++ [95] ++ ext) := by
+  intro k hk e
+  rw [mangle_ascii ua _ h] at e
+  have h1 := underscore_mem name ext
+  have h2 := two_le_length name ext hn
+  have h3 := length_le_mangleAscii (name ++ [95] ++ ext)
+  rw [← e] at h1 h3
+  rcases keywords_shape k hk with h4 | h4
+  · exact h4 h1
+  · omega
+
+/-- `add_static` records `identifier ↦ URL name` … -/
+theorem addStatic_names (ue ua : Nat → Bool) (s : Statics) (path rn url : Bytes) (c : Content) (suf : Bytes) :
+    (s.addStatic ue ua path rn url c suf).names = btInsert (mangle ua rn) url s.names := by
+  rfl
+
+/-- … so `get_names()` maps the identifier to the published URL name of the file just added … -/
+theorem getNames_maps (ue ua : Nat → Bool) (s : Statics) (path rn url : Bytes) (c : Content) (suf : Bytes)
+    (hs : StrictSorted (s.names.map (·.1))) :
+    btGet (mangle ua rn) (s.addStatic ue ua path rn url c suf).names = some url := by
+  have _ := hs
+  rw [addStatic_names]
+  exact btGet_btInsert_self _ _ _
+
+/-- … and keeps every other file added so far -/
+theorem getNames_keeps (ue ua : Nat → Bool) (s : Statics) (path rn url : Bytes) (c : Content) (suf k : Bytes)
+    (hs : StrictSorted (s.names.map (·.1))) (hk : k ≠ mangle ua rn) :
+    btGet k (s.addStatic ue ua path rn url c suf).names = btGet k s.names := by
+  have _ := hs
+  rw [addStatic_names]
+  exact btGet_btInsert_ne _ _ _ _ hk
+
+/-- the invariant is kept -/
+theorem addStatic_sorted (ue ua : Nat → Bool) (s : Statics) (path rn url : Bytes) (c : Content) (suf : Bytes)
+    (hs : StrictSorted (s.names.map (·.1))) :
+    StrictSorted ((s.addStatic ue ua path rn url c suf).names.map (·.1)) := by
+  rw [addStatic_names]
+  exact btInsert_sorted _ _ _ hs
+
+#guard mangle (fun _ => false) (str "17.css") == str "n17_css"
+#guard mangle (fun _ => false) (str "we ird-x.min.css") == str "we_ird_x_min_css"
+example : isIdent [110, 49, 55, 95, 99, 115, 115] = true := by decide
+
 end Ructe.C16
